@@ -242,6 +242,13 @@ def trees(tier):
     t = [s for s in S.SP(2 if tier == "quick" else 3) if "q" in s or S.depth(s) > 1]
     fan = ("Label", "UntypedLabel", "Index", "Branch", "Fraction", "Stack")
     t += [x for x in S.DX() if not any(n["t"] in fan for _, _, n in S.node_ids(x))]
+    # quantities behind a caching wrapper: a failure must not be remembered as if it had been a success
+    from .c11 import with_qk
+
+    base = [x for x in S.D1() if "q" in x and not x.get("tr")]
+    base += [{"t": "Bin", "p": S.BIN_CFG[0], "q": "x", "v": {"t": "Sum", "q": "y"}},
+             {"t": "Categorize", "q": "c", "v": {"t": "Average", "q": "y"}}, {"t": "Select", "q": "s", "v": {"t": "Sum", "q": "y"}}]
+    t += [with_qk(x, "cached") for x in base]
     seen, out = set(), []
     for s in t:
         k = S.key(s)
